@@ -18,11 +18,12 @@ import (
 )
 
 type histStats struct {
-	states    int64
-	probes    int64
-	accepted  int64
-	realProbe int64
-	ruleSeen  sync.Map // rule name -> true (vacuity of the binding)
+	states     int64
+	probes     int64
+	accepted   int64
+	realProbe  int64
+	withBlocks int64
+	ruleSeen   sync.Map // rule name -> true (vacuity of the binding)
 }
 
 // runHistories model-checks Pow.tla and replays every reachable state.
@@ -34,7 +35,11 @@ func runHistories(c *vrun.Ctx) error {
 		timeout = 25 * time.Minute
 	}
 	dump := filepath.Join(c.Scratch, "pow-graph")
-	res, err := tlc.Run(tlc.Opts{SpecDir: c.SpecDir("pow"), Module: "Pow", Config: cfg, Workers: 6,
+	tlcWorkers := 3
+	if c.Thorough {
+		tlcWorkers = 6
+	}
+	res, err := tlc.Run(tlc.Opts{SpecDir: c.SpecDir("pow"), Module: "Pow", Config: cfg, Workers: tlcWorkers,
 		Timeout: timeout, Coverage: c.Thorough, Scratch: c.Scratch,
 		Extra: []string{"-dump", "dot,actionlabels", dump}})
 	if err != nil {
@@ -46,10 +51,9 @@ func runHistories(c *vrun.Ctx) error {
 	c.Logf("Pow.tla: %d distinct states, %d generated, depth %d, %.1fs", res.Distinct, res.Generated, res.Depth, res.WallS)
 	c.AddModel(res.Distinct, res.Generated)
 	if c.Thorough {
-		for _, a := range []string{"Init", "Extend"} {
-			if res.ActionCount[a] == 0 {
-				return fmt.Errorf("Pow.tla: action %s never taken (coverage %v)", a, res.ActionCount)
-			}
+		// TLC labels the only action by its enclosing definition (Next == \E p : Extend(p))
+		if res.ActionCount["Init"] == 0 || res.ActionCount["Next"]+res.ActionCount["Extend"] == 0 {
+			return fmt.Errorf("Pow.tla: an action was never taken (coverage %v)", res.ActionCount)
 		}
 	}
 
@@ -123,6 +127,7 @@ func runHistories(c *vrun.Ctx) error {
 			if err != nil {
 				return err
 			}
+			n.rec = rec
 			if err := checkDerived(c, n, rec, ex.F("derived")); err != nil {
 				return err
 			}
@@ -164,6 +169,10 @@ func runHistories(c *vrun.Ctx) error {
 	c.SetExtra("history_candidates_checked", stats.probes)
 	c.SetExtra("history_candidates_accepted", stats.accepted)
 	c.SetExtra("history_candidates_through_ProcessBlockHeader", stats.realProbe)
+	c.SetExtra("histories_connected_as_blocks", stats.withBlocks)
+	if stats.withBlocks == 0 {
+		return fmt.Errorf("no history was replayed through ProcessBlock / CalcNextRequiredDifficulty")
+	}
 	c.Logf("histories: %d states, %d candidate headers (%d accepted), %d through a real chain", stats.states, stats.probes, stats.accepted, stats.realProbe)
 	return nil
 }
@@ -323,10 +332,24 @@ func replayHistoryState(c *vrun.Ctx, n *netCtx, st tla.State, realEvery uint32, 
 			}
 		}
 	}
+	// a seed-chosen share of the histories is also connected as full blocks
+	if (uint64(hsh.Sum32())*2654435761+uint64(c.Seed))%uint64(blocksEvery(c)) == 0 && len(chain) > 1 {
+		id := atomic.AddInt64(&stats.withBlocks, 1)
+		if err := replayWithBlocks(c, n, st, uint64(id)); err != nil {
+			return err
+		}
+	}
 	if stats.states <= 3 {
 		c.Sample(map[string]any{"kind": "history", "net": n.name, "chain": st["chain"].Go(), "expect": ex.Go()})
 	}
 	return nil
+}
+
+func blocksEvery(c *vrun.Ctx) int {
+	if c.Thorough {
+		return 1500
+	}
+	return 150
 }
 
 func verdictKey(broken []string, cls string) string {
